@@ -54,6 +54,15 @@ static void run_C18(const Args &a, long cs) {
 					double kn[2] = {0, 1}; if (splinetable_convolve(&h.c, 0, kn, 2) == 0) fail("splinetable_convolve:succeeded-on-handle-without-data", ""); size_t pm[1] = {0}; if (splinetable_permute(&h.c, pm) == 0) fail("splinetable_permute:succeeded-on-handle-without-data", "");
 					count("calls:on-null-data-handle"); continue;
 				}
+				if (kind % 4 == 1 && h.c.data == nullptr) { // reading into a handle that holds no table (zeroed or freed): the wrapper creates one; after a failed read the handle holds a valid empty table
+					int w = (int)r.below(3); bool mem = r.coin(0.5); hist += std::string(mem ? "readmem-into-nulldata(" : "read-into-nulldata(") + (w == 0 ? "good);" : w == 1 ? "truncated);" : "missing);"); phase_log(mem ? "readsplinefitstable_mem into handle without data" : "readsplinefitstable into handle without data");
+					h.twin = new Table(); std::string pth = w == 0 ? goodpath : w == 1 ? badpath : g_tmp + "/nonexistent.fits";
+					if (mem) { std::vector<unsigned char> bytes; FILE *f = fopen((w == 1 ? badpath : goodpath).c_str(), "rb"); unsigned char bb[4096]; size_t nn; while (f && (nn = fread(bb, 1, sizeof bb, f)) > 0) bytes.insert(bytes.end(), bb, bb + nn); if (f) fclose(f); if (w == 2) bytes.resize(100);
+						std::vector<unsigned char> c1 = bytes, c2 = bytes; try { h.twin->read_fits_mem(c1.data(), c1.size()); } catch (std::exception &) { threw = true; } splinetable_buffer sb; sb.data = c2.data(); sb.size = c2.size(); rc = readsplinefitstable_mem(&sb, &h.c); expect("readsplinefitstable_mem"); }
+					else { try { h.twin->read_fits(pth); } catch (std::exception &) { threw = true; } rc = readsplinefitstable(pth.c_str(), &h.c); expect("readsplinefitstable"); }
+					if (h.c.data == nullptr) { fail("read-into-handle-without-data:handle-left-without-a-table", ""); delete h.twin; h.twin = nullptr; continue; }
+					h.live = true; if (splinetable_ndim(&h.c) != h.twin->get_ndim()) fail("read-into-handle-without-data:dimension-differs-from-C++", ""); count("calls:read-into-null-data-handle"); continue;
+				}
 				phase_log("splinetable_init"); hist += "init;"; rc = splinetable_init(&h.c); h.twin = new Table(); h.live = true; expect("splinetable_init"); continue;
 			}
 			Table &T = *h.twin; Table &CT = *static_cast<Table *>(h.c.data);
